@@ -5,6 +5,7 @@ from __future__ import annotations
 import warnings
 
 import numpy as np
+from hypothesis import strategies as st
 
 from vlib.core import Discard
 from vlib.core import Property
@@ -24,7 +25,53 @@ def close(a, b, rel=REL, abs_=1e-300):
     return abs(a - b) <= rel * max(abs(a), abs(b)) + abs_
 
 
-def prop(case):
+def result_of_reused_optimizer(case, k_frac):
+    """One ``Optimizer`` object: a run, then a second run in which the model raises at some evaluation (contained), then
+    ``create_result()``.  Whatever that Result reports (here: success, from the first run), it is a successful Result and its
+    statistics must be consistent with its own datasets."""
+    from glotaran.optimization.optimizer import Optimizer
+    from vlib import testmc
+
+    scheme = schemes.make_scheme(case, maximum_number_function_evaluations=case.get("max_nfev", 3),
+                                 optimization_method=case.get("method", "TrustRegionReflection"), add_svd=case.get("add_svd", False))
+    testmc.reset_fault(None)
+    try:
+        with expect_ok("reuse.optimizer"):
+            opt = Optimizer(scheme, verbose=False, raise_exception=False)
+        try:
+            opt.optimize()
+        except Exception as e:  # noqa: BLE001
+            raise Discard(f"first run raised {type(e).__name__}") from None
+        n = testmc.FAULT["count"]
+        if opt._optimization_result is None or n < 2:  # noqa: SLF001  (only to tell a contained numerical breakdown from a fit)
+            raise Discard("first run did not finish")
+        k = 2 + int(k_frac * (n - 2))
+        testmc.reset_fault({"kind": "raise_at", "k": k})
+        with expect_ok("reuse.second_run_not_contained"):
+            opt.optimize()
+        testmc.reset_fault(None)
+        with expect_ok("reuse.create_result"):
+            return opt.create_result()
+    finally:
+        testmc.reset_fault(None)
+
+
+def prop_reuse(c):
+    return prop(c["scheme"], reuse=c["k_frac"])
+
+
+def reuse_cases():
+    @st.composite
+    def cases(draw):
+        case = draw(schemes.fit_cases(labels="neutral", allow_full=False, max_datasets=2))
+        for m in case["megacomplexes"].values():
+            m["fault"] = True
+        return {"scheme": case, "k_frac": draw(st.floats(0, 1))}
+
+    return cases()
+
+
+def prop(case, reuse=None):
     from vlib import capture
 
     why = conflicts(case)
@@ -40,8 +87,11 @@ def prop(case):
         raise Discard("non-positive degrees of freedom")
     with warnings.catch_warnings():
         warnings.simplefilter("ignore")
-        with expect_ok("stats.optimize"):
-            scheme, res = schemes.run_fit(case)
+        if reuse is None:
+            with expect_ok("stats.optimize"):
+                scheme, res = schemes.run_fit(case)
+        else:
+            res = result_of_reused_optimizer(case, reuse)
         if not res.success:
             raise Discard("optimisation not successful")
         vals = optimized_values(case, res)
@@ -131,7 +181,9 @@ def prop(case):
                 ok = close(se, err, 1e-9)
             check(ok, "stats.standard_error", lambda: f"{lab}: {se} vs rmse*sqrt(cov_ii)={err}")
     # a Result is a value: another optimisation run afterwards in the same process must not change it
-    if case.get("penalties") or case.get("relations"):
+    if reuse is not None:
+        tags.append("reused_optimizer_after_contained_failure")
+    elif case.get("penalties") or case.get("relations"):
         import copy
 
         before = (copy.deepcopy(res.additional_penalty), res.chi_square, res.cost,
@@ -172,7 +224,11 @@ PROPERTY = Property(
         "parameters by an independent optimizer. Non-trivial = result with >= 2 of {penalty, constraint/relation, weights, >= 2 datasets, "
         "linked group, full model}."
     ),
-    subs=[Sub("stats", prop=prop, strategy=lambda: schemes.fit_cases(labels="neutral"), budget={"quick": 700, "thorough": 50000})],
+    subs=[
+        Sub("stats", prop=prop, strategy=lambda: schemes.fit_cases(labels="neutral"), budget={"quick": 700, "thorough": 50000}),
+        Sub("reused_optimizer", prop=prop_reuse, strategy=reuse_cases, budget={"quick": 200, "thorough": 10000},
+            doc="one Optimizer object: good run, contained failing run, create_result(): the Result must still be consistent with itself"),
+    ],
     assumptions=[
         "reference objective trusted for counts; identities between reported numbers to 1e-9 relative",
         "covariance compared with inv(J^T J) only when the Jacobian is clearly full rank (cond < 1e6), Penrose conditions when clearly rank deficient",
